@@ -86,9 +86,14 @@ CLAIMED = {
         text='Partial. Proved about the generated earcut predicates: the area sign is the orientation, _point_in_triangle is the three '
              'barycentric sign tests (which sum to the triangle area), _intersects is true iff the segments cross properly (general '
              'position) - this theorem does not compile against the pinned tree\'s comparison chain, which was repaired - and the '
-             'elementary steps conserve area for rings of any length: ear removal, convex fan, diagonal split. Containment, '
+             'elementary steps conserve area for rings of any length: ear removal, convex fan, diagonal split. The test that selects the '
+             'fan shortcut, Polygon2D.is_convex (generated from the source, its break loops translated as flag-guarded folds), is proved to '
+             'answer True exactly when no vertex - first and last included - turns against the orientation of the loop. Containment, '
              'non-overlap and edge-manifoldness of every produced triangulation are decided by an exact-rational tiling checker on '
-             'generated shapes up to 120 vertices and 6 holes (hashed path included).',
+             'generated shapes up to 120 vertices and 6 holes (hashed path included), integer-grid shapes with up to 5 holes whose '
+             'vertices are often exactly level / collinear with each other, and staggered holes with overlapping x-extents. One known '
+             'finding: a hole bridge running through a collinear input vertex leaves a T-junction (exact tiling, but an edge not shared '
+             'edge-to-edge).',
         note='Partial: earcut control flow (linked list, z-order hash, hole bridging) is not modelled; point-set containment / '
              'non-overlap are validated, not proved. Trusted: Coq kernel, py2coq, harness.',
         technique=T_Q),
